@@ -652,12 +652,14 @@ pub(super) fn adds(
         )
         .unwrap();
 
-        // store result
-        operand_store(block, &instruction.operands()[0], result)?;
+        // store result; the flags are expressions over the source operands, so
+        // they are assigned before the destination (which may be a source) is
+        // overwritten
         block.assign(scalar!("n"), n);
         block.assign(scalar!("z"), z);
         block.assign(scalar!("c"), c);
         block.assign(scalar!("v"), v);
+        operand_store(block, &instruction.operands()[0], result)?;
 
         block.index()
     };
@@ -1421,12 +1423,14 @@ pub(super) fn subs(
         )
         .unwrap();
 
-        // store result
-        operand_store(block, &instruction.operands()[0], result)?;
+        // store result; the flags are expressions over the source operands, so
+        // they are assigned before the destination (which may be a source) is
+        // overwritten
         block.assign(scalar!("n"), n);
         block.assign(scalar!("z"), z);
         block.assign(scalar!("c"), c);
         block.assign(scalar!("v"), v);
+        operand_store(block, &instruction.operands()[0], result)?;
 
         block.index()
     };
